@@ -373,6 +373,25 @@ def cli_run(c, name, queries, defkinds, formats, maxargs, fileids=("fa", "fb", "
     return rep
 
 
+SESSION_CMDS = ["all", "join", "count", "group", "limit1", "selw", "dist", "rea", "reb", "createw", "bad", "exit", "dt", "dw"]
+
+
+def session_run(c, name, commands, maxcmds, formats=("text", "json", "csv"), sample=None):
+    """Session.tla: several statements / commands piped into one process (the interactive loop); TLC checks HistoryFree / ExitEnds and emits
+    every session, each is one run of the real binary compared line by line."""
+    exe = vlib.build_cli()
+    k = {"Dev": set(), "Commands": {q(x) for x in commands}, "MaxCmds": maxcmds, "Formats": {q(x) for x in formats}}
+    r = tlc("MC_Session", cfg_text(constants=k, invariants=["TypeOK", "HistoryFree", "ExitEnds", "Emit"]), "session-" + name, workers=W, timeout=900)
+    expect_holds(r, "Session " + name); c.add_tlc(r)
+    path, n = (r.replay_path, r.replays) if not sample or r.replays <= sample else sample_ndjson(r.replay_path, sample, "session-" + name)
+    t0 = time.time()
+    rep = vh_replay("session", path, "session-" + name, env_extra={"VH_CLI": exe, "TZ": "UTC"})
+    c.add_report(rep, reg("sqlgrep interactive loop vs Session.tla (replay)", "session"))
+    c.extra.setdefault("configs", []).append({"name": "session-" + name, "commands": sorted(commands), "max_commands": maxcmds, "sessions_generated": r.replays,
+                                              "sessions_replayed": rep.get("cases", 0), "states": r.distinct, "tlc_s": round(r.wall, 1), "replay_s": round(time.time() - t0, 1)})
+    return rep
+
+
 # =====================================================================================  C12
 READER_DEVS = ["InvalidUtf8EndsFile"]
 
@@ -432,6 +451,8 @@ def check_C17(tier):
         c.add_report(rep, "OutputPrinter vs Printer.tla (replay)")
     # the records as the process prints them on stdout in every --format (header once, one record per line, statistics line last)
     cli_run(c, "formats", ["all", "count", "second", "limit1", "limit2"], ["ok", "two"], ["text", "json", "csv"], 2, sample=None if t else 1500)
+    # the interactive loop: results are not "single" there -- the rows one line fans out to are followed by an empty line, an aggregate's final table is not
+    session_run(c, "separators", ["all", "join", "count", "group", "limit1", "bad"], 2)
     # end to end: rows produced by the engine and printed by FileExecutor as JSON (Engine.tla replays decode every record)
     engine_run(c, "print-e2e", "SelectMenu", lines="Lines3", maxlines=2, maxfiles=1, tdefs=("plain",))
     c.rule = ("TLC enumerates sequences of print() calls (0-3 rows x 1-2 columns, single / multi) x the three formats over a boundary value universe "
@@ -702,6 +723,8 @@ def check_C18(tier):
     laws_trace(c, 2 if t else 1, 300 if t else 100)
     trace_check(c, "process", "Trace_Laws", 60 if t else 15, "process", "fresh-process executions of the CLI (byte-identical output)", rounds=2 if t else 1,
                 env={"VH_CLI": vlib.build_cli()})
+    # several statements in one process: what a statement prints does not depend on what ran before it (fresh engine, printer, DISTINCT memory, compiled patterns)
+    session_run(c, "history", SESSION_CMDS, 3 if t else 2, formats=("text", "json", "csv") if t else ("text", "csv"))
     engine_sim(c, "determinism", "DistinctMenu", lines="Lines4", maxlines=10, num=1000 if t else 80)
     c.rule = ENGINE_RULE + (" Determinism of the model is checked through TLC's out-degree statistics (every state has at most one successor); every replayed behaviour must equal the model's unique output; "
                             "the CLI is run 4 times per case in fresh processes (fresh RandomState seeds), with unrelated tables defined before / after the queried one, and the outputs must be identical line by line.")
